@@ -146,6 +146,17 @@ func c05Run(env *core.Env, idx int) core.CaseResult {
 		w = gen.Relocate(w, "noext") // a root document whose file name has no extension
 		res.Count("root-without-extension", 1)
 	}
+	// schemas that say nothing at all: "{}" as a definition, a property, a member of allOf and the items of an array
+	// (a typed root holds them by value as zero structures; they are targets like any other)
+	emptyTargets := []string{}
+	if rd, ok := w.Docs[w.Root].(map[string]interface{}); ok {
+		if defs, ok := rd["definitions"].(map[string]interface{}); ok {
+			defs["c05-any"] = map[string]interface{}{}
+			defs["c05-holder"] = map[string]interface{}{"title": "holder of empty schemas", "properties": map[string]interface{}{"e": map[string]interface{}{}},
+				"allOf": []interface{}{map[string]interface{}{}}, "items": map[string]interface{}{}, "additionalProperties": map[string]interface{}{}}
+			emptyTargets = []string{"/definitions/c05-any", "/definitions/c05-holder/properties/e", "/definitions/c05-holder/allOf/0", "/definitions/c05-holder/items", "/definitions/c05-holder/additionalProperties"}
+		}
+	}
 	in := oworld(w)
 	res.Hash = core.HashOf(w.Docs)
 	var docs []string
@@ -169,6 +180,12 @@ func c05Run(env *core.Env, idx int) core.CaseResult {
 	rng.Shuffle(len(targets), func(i, j int) { targets[i], targets[j] = targets[j], targets[i] })
 	if len(targets) > 60 {
 		targets = targets[:60]
+	}
+	if len(emptyTargets) > 0 {
+		for _, k := range rng.Perm(len(emptyTargets))[:2] {
+			targets = append(targets, c05Target{oracle.State{Doc: w.Root, Ptr: emptyTargets[k]}, "schema"})
+			res.Count("empty-schema-target", 1)
+		}
 	}
 	rootText, _ := json.Marshal(w.Docs[w.Root])
 	nontrivial := 0
